@@ -60,8 +60,13 @@ ObsMirrorStep(mir, o) ==
      ELSE IF ~mir[m].on THEN [on |-> TRUE, s |-> ToSet(o.listing[m])]
      ELSE [on |-> TRUE, s |-> ApplySeq(mir[m].s, SigsOf(o, m))]]
 
-Cand(o, d) == LET e == Eff(reg, [op |-> o.op, p |-> o.p, i |-> o.i, v |-> o.v], d)
-              IN [reg |-> TLCEval(e.reg), res |-> e.res, used |-> e.used, mirror |-> TLCEval(MirrorStep(mirror, e.reg, e.sigs))]
+Cand(o, d) ==
+  IF o.op = "atrm"
+  THEN LET e == AtRmEff(reg, [op |-> o.op, p |-> o.p, i |-> o.i, v |-> o.v], d)
+       IN [reg |-> TLCEval(e.second.reg), res |-> e.res, used |-> e.first.used \cup e.second.used,
+           mirror |-> TLCEval(MirrorStep(MirrorStep(mirror, e.first.reg, e.first.sigs), e.second.reg, e.second.sigs))]
+  ELSE LET e == Eff(reg, [op |-> o.op, p |-> o.p, i |-> o.i, v |-> o.v], d)
+       IN [reg |-> TLCEval(e.reg), res |-> e.res, used |-> e.used, mirror |-> TLCEval(MirrorStep(mirror, e.reg, e.sigs))]
 
 KidsOk(r, o) == \A p \in Paths \ {Root} :
                   (\E x \in PresentPairs(r) : x[1] = p \/ x[1] \in Below(p)) => <<Parent[p], Leaf[p]>> \in ToSet(o.kids)
@@ -124,7 +129,8 @@ Step ==
           /\ IF PropMirror(o, om) THEN TRUE
              ELSE Out("MISMATCH", [id |-> id, step |-> k, what |-> "prop-mirror",
                                    op |-> <<o.op, o.p, o.i>>, listing |-> o.listing, sigs |-> o.sigs])
-          /\ IF PropProps(c0.reg, o) THEN TRUE
+          /\ IF PropProps(IF o.op = "atrm" THEN AtRmEff(reg, [op |-> o.op, p |-> o.p, i |-> o.i, v |-> o.v], {}).first.reg
+                          ELSE c0.reg, o) THEN TRUE
              ELSE Out("MISMATCH", [id |-> id, step |-> k, what |-> "prop-props",
                                    op |-> <<o.op, o.p, o.i>>, listing |-> o.listing, sigs |-> o.sigs])
           /\ st' = "fail"
